@@ -42,6 +42,8 @@ type Job struct {
 	Inputs     []*InputSym
 	Unmodelled []string
 	Trusted    []string
+	symMemo    map[int]map[string]bool
+	skMemo     map[int][]string
 	Err        string // unsupported construct / contract error
 	GenSecs    float64
 	Stats      string
@@ -230,6 +232,14 @@ func (p *Program) generate(j *Job) {
 		x.trusted["TRUSTED-CONTRACT "+j.Name] = true
 		for _, cl := range c.Clauses {
 			cl.Used = true
+		}
+	}
+	if c != nil {
+		for _, cl := range c.Clauses {
+			if cl.Kind == "defines" {
+				cl.Used = true
+				x.trusted["DEFINITION by "+j.Name+": "+cl.Src] = true
+			}
 		}
 	}
 	if c != nil && !c.Trusted {
